@@ -121,6 +121,7 @@ def run(prog, rep, tier='quick', config='default'):
             rep.ok('R16c', 'symbol-key-unmodified', where=x.where(), fn=parse.name, detail='the map key is the given symbol (trimmed only)')
 
     r16de(prog, rep, parse)
+    r16f(prog, rep)
 
     # ------------------------------------------------------------------ R16b
     ALLOWED = {'get', 'remove', 'contains_key', 'new', 'with_capacity', 'drop', 'clone', 'default', 'insert'}   # remove(&key): a keyed look-up that takes the value
@@ -187,6 +188,56 @@ def run(prog, rep, tier='quick', config='default'):
                           detail='the opening position handed to the bookkeeping of a security is not looked up under that security\'s own key '
                                  '(key and rows from the same map entry: %s, status from this look-up: %s)' % (same_elem, feeds))
     rep.extra['opening_map_use_sites'] = n_uses
+
+
+def r16f(prog, rep):
+    """the opening position is installed whatever it is: in the constructor of the per-affiliate status store (the function taking an
+    Option<Rc<PortfolioSecurityStatus>> and building the store), every path that starts on the Some edge of that parameter passes a
+    call that stores the payload before it returns — a position with zero shares and a cost base (what is left after a superficial
+    sale of everything) is a position too"""
+    OPT = re.compile(r'^std::option::Option<std::rc::Rc<(acb::)?portfolio::(model::txdelta::|bookkeeping::\w+::)?PortfolioSecurityStatus')
+    n = 0
+    for f in prog.product_fns():
+        if mir.is_testsupport(f.name) or f.kind not in ('Fn', 'AssocFn') or not f.name.startswith('portfolio::bookkeeping::'):
+            continue
+        ps = [p for p in range(1, f.argc + 1) if OPT.search(f.ty.get(p, '') or '')]
+        if not ps or 'AffiliatePortfolioSecurityStatuses' not in (f.ty.get(0, '') or ''):
+            continue
+        p = ps[0]
+        view = mir.inline_view(prog, f)
+        for fx in (f, view):
+            some_edges = []
+            for i, b in fx.blocks.items():
+                t = b['term']
+                if t and t['t'] == 'switch' and is_place(t['discr']):
+                    dd = fx.single_def(t['discr']['pl']['l'])
+                    if dd and dd[2] == 'stmt' and dd[3]['r']['rv'] == 'discr' and p in (set(mir.provenance(fx, {'k': 'copy', 'pl': dd[3]['r']['pl']}).locals) | {dd[3]['r']['pl']['l']}):
+                        tg = [x for v, x in t['targets'] if v == 1] or ([t['otherwise']] if not any(v == 1 for v, _ in t['targets']) else [])
+                        some_edges += tg
+            if not some_edges:
+                continue
+            stores = set()
+            for c in fx.calls:
+                if c.short in ('insert', 'set_latest_post_status') or (prog.resolve(c.callee, fx.crate) is not None and c.short.startswith('set_')):
+                    for a in c.args[1:]:
+                        if is_place(a) and p in mir.provenance(fx, a, follow_all_call_args=True).locals | mir.provenance(fx, a, follow_all_call_args=True).params:
+                            stores.add(c.bb)
+            n += 1
+            k = '%s|opening-position-installed-whatever-it-is' % f.name
+            if not stores:
+                rep.violation('R16f', 'anchor-lost:status-store-call', fn=f.name, detail='anchor lost: the call that stores the opening position in the status store')
+                break
+            bad = [e for e in some_edges if e not in stores and any(x in fx.reachable_from(e, avoid=stores) | {e} for x in fx.exits)]
+            # a panic (assert) on the way is not a silent drop
+            if bad:
+                rep.violation('R16f', k, where='%s:%d' % (f.file, f.line), fn=f.name,
+                              detail='an opening position that was given can be left out of the status store (a path from "Some(position)" returns '
+                                     'without storing it): the run then differs from one with the equivalent opening purchase')
+            else:
+                rep.ok('R16f', k, fn=f.name, where='%s:%d' % (f.file, f.line), detail='every path on the Some edge stores the position before returning')
+            break
+    if n == 0:
+        rep.violation('R16f', 'anchor-lost:status-store-constructor', detail='anchor lost: the constructor of the per-affiliate status store taking the opening position')
 
 
 def r16de(prog, rep, parse):
